@@ -28,7 +28,7 @@ checks = {
  "C19": ("L", "forget / forget_monogamous vs substitution with the replace-iff-uniform rule up to iso; scripted Var-builder expressions evaluate to the expression written on symbolic inputs; build fails iff a handle outlives the builder"),
  "C09": ("L", "quotient: fibres = classes of the pending pairs, references mapped, labels of fibres, idempotence, Err iff label conflict and then unchanged"),
  "C12": ("S", "functor application vs generator-wise substitution (six functor families) up to isomorphism; preservation laws; lax half (lax tier): dyn_functor path on seven lax functor families incl. images with pending unifications"),
- "C14": ("S", "optic image vs substitution with lens-shaped images up to isomorphism; interleaved types; adapted form, its type and monogamy; functoriality; lax entry points map_arrow/map_adapted (lax tier); the reverse-derivative clause is not yet covered"),
+ "C14": ("S", "optic image vs substitution with lens-shaped images up to isomorphism; interleaved types; adapted form, its type and monogamy; functoriality; lax entry points map_arrow/map_adapted (lax tier); reverse-derivative clause: adapted optic of every monogamous acyclic polynomial circuit with <=3 operations (wirings enumerated) evaluated by the real eval on symbolic 64-bit (x,dy) = (f(x), J^T dy) from an independent reverse accumulation"),
  "C15": ("S", "layering obligations vs dependency / cycle / longest-chain oracle; grouped form"),
  "C16": ("S", "eval vs Jacobi evaluation oracle on symbolic wirings and 64-bit inputs; None iff cyclic; every hyperedge interpreted once"),
  "C17": ("S", "is_acyclic / is_monogamous / degrees vs definitions, in the dev and the release arithmetic profile"),
